@@ -369,6 +369,7 @@ def check_property(prop, spec, tier, seed, replay=None):
         if r.engine not in by_variant[v]:
             by_variant[v].append(r.engine)
     build_log = []
+    build_violations = []
     for v, engines in by_variant.items():
         if v in ("miri", "miri-sb"):
             groups = [[e] for e in engines]  # cargo miri run takes one binary
@@ -386,9 +387,19 @@ def check_property(prop, spec, tier, seed, replay=None):
             if p.returncode != 0:
                 txt = p.stdout.decode("utf-8", "replace")
                 errs = [l for l in txt.splitlines() if l.startswith("error")][:5]
-                inconclusive.append(f"build failed for {','.join(g)}/{v}: {' | '.join(errs) or txt[-400:]}")
-    if inconclusive:
-        return finish(prop, spec, tier, seed, [], [], inconclusive, notes, build_log, t_start, {})
+                hard = [l for l in txt.splitlines() if l.startswith("error[") or l.startswith("error:")]
+                hard = [l for l in hard if not l.startswith("error: could not compile") and "aborting due to" not in l]
+                const_eval = [l for l in hard if l.startswith("error[E0080]") or "constant evaluation is taking a long time" in l]
+                if hard and len(const_eval) == len(hard):
+                    # the engine's own const items (built from the crate's const fns) were rejected by
+                    # rustc's const evaluator: that is an observation about the crate, not a broken harness
+                    build_violations.append({"prop": prop, "sig": "build|const-eval:" + re.sub(r"\d+", "#", const_eval[0])[:120],
+                                             "case": f"{prop} const items of engine {','.join(g)} ({v} build)", "detail": "\n".join(txt.splitlines()[-40:])[-1800:],
+                                             "log": [], "variant": v, "engine": g[0], "args": []})
+                else:
+                    inconclusive.append(f"build failed for {','.join(g)}/{v}: {' | '.join(errs) or txt[-400:]}")
+    if inconclusive or build_violations:
+        return finish(prop, spec, tier, seed, build_violations, [], inconclusive, notes, build_log, t_start, {})
 
     # ---- run
     default_timeout = 1500 if tier == "quick" else 5400
